@@ -29,7 +29,8 @@ def run_one(name):
         env = dict(os.environ, PYTHONPATH=os.path.join(tmp, "src"), VERIF_REPO=tmp, VERIF_REPO_SRC=os.path.join(tmp, "src", "gbigsmiles"),
                    VERIF_OUT=os.path.join(tmp, "out"), VERIF_JOBS="4")
         os.makedirs(os.path.join(tmp, "out"), exist_ok=True)
-        r = subprocess.run([os.path.join(HERE, "check"), prop, "--tier", "quick"], cwd=HERE, env=env, capture_output=True, text=True, timeout=3600)
+        r = subprocess.run([os.path.join(HERE, "check"), prop, "--tier", "quick"] + (["--no-bounded"] if PROOF_ONLY else []),
+                           cwd=HERE, env=env, capture_output=True, text=True, timeout=3600)
         out = r.stdout
         viol = re.findall(r"VIOLATION property=\S+ replay=\S*/([^/\s]+)\.json( no-failing-input-found)?", out)
         und = re.findall(r"UNDECIDED property=\S+ (?:obligation|function)=(\S+)", out)
@@ -39,14 +40,20 @@ def run_one(name):
         shutil.rmtree(tmp, ignore_errors=True)
 
 
+PROOF_ONLY = False
+
+
 def main():
+    global PROOF_ONLY
+    args = [a for a in sys.argv[1:] if a != "--proof-only"]
+    PROOF_ONLY = "--proof-only" in sys.argv
     names = sorted(n for n in os.listdir(SEEDED) if os.path.isdir(os.path.join(SEEDED, n)))
-    if len(sys.argv) > 1:
-        names = [n for n in names if any(n.startswith(a) for a in sys.argv[1:])]
+    if args:
+        names = [n for n in names if any(n.startswith(a) for a in args)]
     rows = []
     with ThreadPoolExecutor(max_workers=3) as ex:
         for name, prop, res in ex.map(run_one, names):
-            json.dump(res, open(os.path.join(SEEDED, name, "detection.json"), "w"), indent=1)
+            json.dump(res, open(os.path.join(SEEDED, name, "detection_proof.json" if PROOF_ONLY else "detection.json"), "w"), indent=1)
             rows.append((name, prop, res))
             print(name, res.get("exit"), res.get("violations", [])[:3], flush=True)
     rows = []
@@ -56,9 +63,13 @@ def main():
             rows.append((n, json.load(open(os.path.join(SEEDED, n, "meta.json")))["property"], json.load(open(dj))))
     with open(os.path.join(SEEDED, "MATRIX.md"), "w") as f:
         f.write("# Seeded changes vs. checks (written by tools/matrix.py; each run on a scratch copy of /repo with the change applied)\n\n")
-        f.write("| change | property | check exit | reported as | obligations no longer discharged |\n|---|---|---|---|---|\n")
+        f.write("The last two columns are the deductive layer alone (`./check <id> --no-bounded`): exit 1 = a locked obligation is refuted, 2 = it no longer discharges (undecided), 0 = the proofs do not see the change.\n\n")
+        f.write("| change | property | check exit | reported as | proof-only exit | obligations refuted / no longer discharged |\n|---|---|---|---|---|---|\n")
         for name, prop, res in sorted(rows):
-            f.write(f"| {name} | {prop} | {res.get('exit')} | {'; '.join(res.get('violations', [])[:4]) or '-'} | {'; '.join(res.get('undecided', [])[:4]) or '-'} |\n")
+            pj = os.path.join(SEEDED, name, "detection_proof.json")
+            pr = json.load(open(pj)) if os.path.exists(pj) else {}
+            obs = [v for v in pr.get("violations", [])] + pr.get("undecided", [])
+            f.write(f"| {name} | {prop} | {res.get('exit')} | {'; '.join(res.get('violations', [])[:4]) or '-'} | {pr.get('exit', '')} | {'; '.join(obs[:4]) or '-'} |\n")
 
 
 if __name__ == "__main__":
